@@ -89,6 +89,7 @@ func retryOverRealHTTP(x *mon.Ctx) {
 		pv, st string
 	}
 	results := make([]res, len(scens))
+	finished := make([]int32, len(scens))
 	var wg sync.WaitGroup
 	for i := range scens {
 		wg.Add(1)
@@ -96,20 +97,44 @@ func retryOverRealHTTP(x *mon.Ctx) {
 			defer wg.Done()
 			sc := scens[i]
 			g := &trust.RetryHTTPSGetter{Timeout: sc.timeout, MaxRetryDelay: sc.cap, Getter: &trust.SimpleHTTPSGetter{}}
-			r := &results[i]
+			var r res
 			r.pv, r.st = mon.Guard(func() { r.h, r.b, r.err = g.Get(sc.url) })
+			results[i] = r
+			atomic.StoreInt32(&finished[i], 1)
 		}(i)
 	}
-	wg.Wait()
+	// every scenario ends with a success after at most three failures and waits of at most 1 s: a Get that has not come back after
+	// 45 s (twice the longest timeout configured here) is not coming back — "instead of hanging"
+	all := make(chan struct{})
+	go func() { wg.Wait(); close(all) }()
+	select {
+	case <-all:
+	case <-time.After(45 * time.Second):
+	}
 	time.Sleep(30 * time.Millisecond)
 	close(stop)
 	cwg.Wait()
 	late := time.Duration(atomic.LoadInt64(&worst))
 	n := 0
 	for i, sc := range scens {
-		r := results[i]
 		param := fmt.Sprintf("script=%v cap=%v timeout=%v %s", sc.script, sc.cap, sc.timeout, sc.mode)
 		at := pcs.Times(sc.url)
+		if atomic.LoadInt32(&finished[i]) == 0 {
+			if late < time.Second {
+				x.Violation(class, param, fmt.Sprintf("Get has not returned 45 s after it was called (timeout %v, maximum retry delay %v; the server saw %d request(s), the last %v after the first)", sc.timeout, sc.cap, len(at), func() time.Duration {
+					if len(at) < 2 {
+						return 0
+					}
+					return at[len(at)-1].Sub(at[0]).Round(time.Millisecond)
+				}()), "none", param)
+			} else {
+				x.Inconclusive(fmt.Sprintf("%s: no result after 45 s, but timers were late by %v", param, late))
+			}
+			x.Note(class, param, false, false, false)
+			n++
+			continue
+		}
+		r := results[i]
 		prob := ""
 		switch {
 		case r.pv != "":
